@@ -84,6 +84,8 @@ def scalar_form(form, value):
         return np.float64(value)
     if form == "np.float32":
         return np.float32(value)
+    if form == "np.float16":
+        return np.float16(value)
     if form == "np.int64":
         return np.int64(value)
     if form == "np.int32":
